@@ -31,7 +31,13 @@ impl Domain {
 
     /// Domain with an explicit prefix and root directory name (for the isolation checks).
     pub fn with(prefix: &str, root_name: &str) -> Domain {
-        let root = vcore::util::run_dir().join(root_name);
+        Self::at(prefix, &vcore::util::run_dir().join(root_name))
+    }
+
+    /// Domain with an explicit prefix and an absolute root path (child processes join the
+    /// domain of their parent this way).
+    pub fn at(prefix: &str, root: &std::path::Path) -> Domain {
+        let root = root.to_path_buf();
         std::fs::create_dir_all(&root).expect("create domain root");
         let mut config = Config::default();
         config.global.set_root_path(&Path::new(root.to_str().unwrap().as_bytes()).expect("root path is a valid Path"));
@@ -90,5 +96,23 @@ impl Domain {
 impl Default for Domain {
     fn default() -> Self {
         Self::new()
+    }
+}
+
+/// Janitor: removes /dev/shm objects of domains whose creating process no longer exists
+/// (left behind by killed runs: prefix `v<pid>x<n>_`).
+pub fn sweep_dead_domains() {
+    if let Ok(rd) = std::fs::read_dir("/dev/shm") {
+        for e in rd.flatten() {
+            let n = e.file_name().to_string_lossy().to_string();
+            let Some(rest) = n.strip_prefix('v') else { continue };
+            let Some((pid, tail)) = rest.split_once('x') else { continue };
+            if pid.is_empty() || !pid.chars().all(|c| c.is_ascii_digit()) || !tail.chars().next().map(|c| c.is_ascii_digit()).unwrap_or(false) {
+                continue;
+            }
+            if !std::path::Path::new(&format!("/proc/{pid}")).exists() {
+                let _ = std::fs::remove_file(e.path());
+            }
+        }
     }
 }
